@@ -39,7 +39,7 @@ fn ring_back(content: &[u8; RING], pos: usize, dist: usize) -> u8 {
 // C01-G / C04-E / C06: repeat(dist,len) from any valid state: Err iff the distance reaches beyond the filled
 // dictionary; otherwise exactly min(len, limit-pos) bytes are produced, each equal to the byte `dist+1` positions
 // before it (the LZ77 copy semantics, overlapping allowed), the rest is left pending, the invariant is kept.
-//@ {"name":"c01g_lzdict_repeat_step","props":["C01","C04","C06","C07"],"obligation":"C01-G","timeout":1500,"mem_gb":9,"functions":["lz::lz_decoder::LZDecoder::repeat"],"bounds":"16-byte ring buffer with arbitrary content; any start/pos/full/limit satisfying the invariant with pos < limit; dist any usize; len 1..=273; unwind 20","assumes":["representation invariant inv() (DESIGN.md Appendix A)","pos < limit (decode() only calls repeat under has_space())"]}
+//@ {"name":"c01g_lzdict_repeat_step","props":["C01","C06","C04","C07"],"obligation":"C01-G","timeout":1500,"mem_gb":9,"functions":["lz::lz_decoder::LZDecoder::repeat"],"bounds":"16-byte ring buffer with arbitrary content; any start/pos/full/limit satisfying the invariant with pos < limit; dist any usize; len 1..=273; unwind 20","assumes":["representation invariant inv() (DESIGN.md Appendix A)","pos < limit (decode() only calls repeat under has_space())"]}
 #[kani::proof]
 #[kani::unwind(20)]
 fn c01g_lzdict_repeat_step() {
